@@ -131,9 +131,10 @@ func callFQs(fqs *bt.FeeQuotes, m string, tag int, st *raceStats) {
 
 // engine scenario: distinct signed transactions (half of them invalidated) validated by one engine
 type engCase struct {
-	tx   *bt.Tx
-	idx  int
-	prev *bt.Output
+	tx     *bt.Tx
+	idx    int
+	prev   *bt.Output
+	legacy bool // signed with a hash type without the FORKID bit: validated without the FORKID flag
 }
 
 func engineCases(r *rng, n int) []engCase {
@@ -150,6 +151,10 @@ func engineCases(r *rng, n int) []engCase {
 		}
 		pos := r.n(nIn)
 		hts := []sighash.Flag{0x41, 0x42, 0x43, 0xc1, 0xc3}
+		legacy := i%2 == 1
+		if legacy {
+			hts = []sighash.Flag{0x01, 0x02, 0x03, 0x81, 0x83}
+		}
 		if err := tx.FillInput(context.Background(), &unlocker.Simple{PrivateKey: k.priv}, bt.UnlockerParams{InputIdx: uint32(pos), SigHashFlags: hts[r.n(len(hts))]}); err != nil {
 			panic(err)
 		}
@@ -160,13 +165,17 @@ func engineCases(r *rng, n int) []engCase {
 		case 1:
 			tx.Version++
 		}
-		cs = append(cs, engCase{tx, pos, prev})
+		cs = append(cs, engCase{tx, pos, prev, legacy})
 	}
 	return cs
 }
 
 func execVerdict(eng interpreter.Engine, c engCase) string {
-	err := eng.Execute(interpreter.WithTx(c.tx, c.idx, c.prev), interpreter.WithForkID(), interpreter.WithAfterGenesis())
+	opts := []interpreter.ExecutionOptionFunc{interpreter.WithTx(c.tx, c.idx, c.prev), interpreter.WithAfterGenesis()}
+	if !c.legacy {
+		opts = append(opts, interpreter.WithForkID())
+	}
+	err := eng.Execute(opts...)
 	if err != nil {
 		return "r"
 	}
@@ -221,7 +230,7 @@ func raceChild(scenario string, seed uint64, g, procs int) string {
 			// transaction objects (Execute records the spent output on the checked input)
 			mine := make([]engCase, len(cases))
 			for j, c := range cases {
-				mine[j] = engCase{parseDesc(descTx(c.tx)), c.idx, &bt.Output{Satoshis: c.prev.Satoshis, LockingScript: scr(append([]byte{}, *c.prev.LockingScript...))}}
+				mine[j] = engCase{parseDesc(descTx(c.tx)), c.idx, &bt.Output{Satoshis: c.prev.Satoshis, LockingScript: scr(append([]byte{}, *c.prev.LockingScript...))}, c.legacy}
 			}
 			st := newStats()
 			wg.Add(1)
@@ -392,10 +401,11 @@ func genC18(e *emitter, tier string, seed uint64) {
 				run("fqs:"+a+":"+b, c[0], c[1])
 			}
 		}
+		// a race needs two executions to overlap in time: several runs with different seeds and widths (one run of
+		// 4 goroutines caught a seeded race in signature hashing in 10 of 12 tries; three runs miss it about 1 in 200)
 		run("engine", c[0], c[1])
+		run("engine", c[0]*2, c[1])
+		run("engine", c[0]*2, c[1]*2)
 		run("scripts", c[0], c[1])
-		if !quick {
-			run("engine", c[0]*2, c[1])
-		}
 	}
 }
